@@ -1,11 +1,11 @@
 import SeqIoModel.Proofs.Fill
 import SeqIoModel.Proofs.FastaStreamGrowth
+import SeqIoModel.Proofs.FastqGrowth
 /-!
 # C09 – the buffer grows only as the policy directs and only when a record does not fit
 
-Reader-level theorems are stated for `next()` of the FASTA machine (`InvW` = invariant of all states
-reachable by `next` calls with a policy that may refuse); the FASTQ counterparts are in
-`Proofs/FastqGrowth.lean` when present (see evidence).  Set reads are covered by the correspondence
+Reader-level theorems are stated for `next()` of both machines (FASTA: `InvW` = invariant of all states
+reachable by `next` calls with a policy that may refuse; FASTQ: `Good`).  Set reads are covered by the correspondence
 run (request log compared exactly with the model after every operation).
 -/
 
@@ -88,5 +88,30 @@ theorem set_policy_transparent (r : Reader) (p : Pol) :
     (setPolicy r p).byte = r.byte ∧ (setPolicy r p).searchPos = r.searchPos ∧
     (setPolicy r p).state = r.state ∧ (setPolicy r p).log = r.log ∧ (setPolicy r p).pol = p := by
   simp [setPolicy]
+
+/-- FASTQ: the requests of one `next()` call form a chain from the capacity on entry to the capacity
+on exit (`GrowLog`), buffer-limit is returned iff the last request was refused, and every request is
+made while the group being parsed does not fit the capacity passed -/
+theorem fastq_growth_bookkeeping (inp : List UInt8) (G : Prop) (fuel : Nat) (r : Fastq.Reader)
+    (its : List Spec.FqItem) (hg : Fastq.Good inp G r its) (hfuel : r.br.src.inp.length + 2 ≤ fuel) :
+    ∃ new b, (Fastq.next fuel r).1.log = r.log ++ new ∧
+      Fastq.GrowLog r.br.cap new (Fastq.next fuel r).1.br.cap b ∧
+      ((Fastq.next fuel r).2 = .err .bufferLimit ↔ b = true) ∧
+      (∀ c a, (c, a) ∈ new → ¬ Fastq.Fits (inp.drop (Fastq.nextByte r)) c) :=
+  Fastq.next_growth_log inp G fuel r its hg hfuel
+
+/-- FASTQ: without a request the capacity does not change -/
+theorem fastq_no_request_no_growth (inp : List UInt8) (G : Prop) (fuel : Nat) (r : Fastq.Reader)
+    (its : List Spec.FqItem) (hg : Fastq.Good inp G r its) (hfuel : r.br.src.inp.length + 2 ≤ fuel)
+    (h : (Fastq.next fuel r).1.log = r.log) : (Fastq.next fuel r).1.br.cap = r.br.cap :=
+  Fastq.next_no_request_cap inp G fuel r its hg hfuel h
+
+/-- FASTQ: input whose groups all fit never causes growth, however long it is -/
+theorem fastq_fitting_input_never_grows (inp : List UInt8) (cap : Nat) (hcap : 3 ≤ cap) (pol : Pol)
+    (hwf : Fastq.PolWf1 pol) (script : List ReadEv) (hs : NoFail script) (chunk : Nat)
+    (hfit : Fastq.AllFit inp cap) (k : Nat) :
+    (Fastq.nextN k (Fastq.mkReader inp cap pol script chunk)).log = [] ∧
+      (Fastq.nextN k (Fastq.mkReader inp cap pol script chunk)).br.cap = cap :=
+  Fastq.fitting_never_grows inp cap hcap pol hwf script hs chunk hfit k
 
 end SeqIo.Thm.C09
